@@ -109,11 +109,15 @@ def pyNot (v : PyVal) : PyVal := .bool (!v.truthy)
 /-- `a and b` (the model is pure, so evaluating `b` eagerly is harmless). -/
 def pyAnd (a b : PyVal) : PyVal := if a.truthy then b else a
 
+/-- `v is not None`. -/
+def pyIsNotNone (v : PyVal) : PyVal := .bool (v != .none)
+
 /-- `md.condition` and what it evaluates to at load time: absent, `@lcc.hidden()`
     (= `visible_if(lambda _: False)`), or `@lcc.visible_if(c)` where `c(obj)` returns `v`.
     `selfTruthy` is the truth value of the callable `c` *itself*: `true` for functions, lambdas and
     ordinary callable instances; `false` for a callable instance that is falsy (defines `__bool__` /
-    `__len__`, e.g. a callable subclass of `list` that is empty) — see finding D36 below. -/
+    `__len__`, e.g. a callable subclass of `list` that is empty).  Since the repair of finding D36 the loader
+    no longer looks at it (`Vis.shown_eq_visible`); it stays in the layout as an input class. -/
 inductive Vis where
   | always
   | hidden
@@ -122,8 +126,8 @@ inductive Vis where
 
 /-- What the property demands: no condition ⇒ visible; `hidden()` ⇒ not; `visible_if(c)` ⇒ visible
     iff `c(obj)` is a true value.  The core loader below and the specification (`LoaderSpec.lean`)
-    both go through this function; `Vis.shown_eq_norm` (`Lemmas/LoaderVis.lean`) ties it to the expression
-    the code evaluates. -/
+    both go through this function; `Vis.shown_eq_visible` (`Lemmas/LoaderVis.lean`) ties it to the
+    expression the code evaluates. -/
 def Vis.visible : Vis → Bool
   | .always => true
   | .hidden => false
@@ -142,20 +146,19 @@ def Vis.result : Vis → PyVal
   | .cond _ v => v
 
 /-- The value the loader stores in `.hidden`, literally
-    `md.condition and not md.condition(obj)` (`_load_test`, `load_suite_from_class`,
-    `load_suite_from_module`): `None` without condition, otherwise `True` / `False` — or the falsy
-    callable itself. -/
-def Vis.hiddenAttr (v : Vis) : PyVal := pyAnd v.conditionObj (pyNot v.result)
+    `md.condition is not None and not md.condition(obj)` (`_load_test`, `load_suite_from_class`,
+    `load_suite_from_module`; fix of D36 — it was `md.condition and not …`, which consulted the truth
+    value of the callable itself): always `True` or `False`. -/
+def Vis.hiddenAttr (v : Vis) : PyVal := pyAnd (pyIsNotNone v.conditionObj) (pyNot v.result)
 
 /-- What every reader of `.hidden` does (`if not test.hidden`, `filter(lambda s: not s.hidden, …)`,
     `if not suite.hidden`): the item is kept iff `.hidden` is a false value. -/
 def Vis.shown (v : Vis) : Bool := !v.hiddenAttr.truthy
 
-/-- A `visible_if` whose callable is itself falsy is never consulted: for the loader the item has no
-    condition at all (finding D36). -/
-def normVis : Vis → Vis
-  | .cond false _ => .always
-  | v => v
+/-- The condition is a callable instance that is itself a false value. -/
+def Vis.falsyCallable : Vis → Bool
+  | .cond false _ => true
+  | _ => false
 
 /-- `md.disabled`: `False`, `True`, or the reason string. -/
 inductive Disabled where
@@ -668,90 +671,14 @@ def stripDirs : List Dir → List Dir
   | d :: ds => stripDir d :: stripDirs ds
 end
 
-/-! ## A falsy condition callable is never consulted (finding D36)
-
-  `hidden = md.condition and not md.condition(obj)` tests the truth value of the *callable* before
-  calling it.  For a function or a lambda that is `True`; for a callable instance that is falsy (its
-  class defines `__bool__` or `__len__`) the expression short-circuits to the callable itself — a false
-  value — and the item is shown whatever `condition(obj)` would return (`Vis.shown_eq_norm`).
-  The real entry points therefore see the layout with every such condition removed. -/
-
-def normTest (t : TestDecl) : TestDecl := { t with vis := normVis t.vis }
-
-def normTests : List TestDecl → List TestDecl
-  | [] => []
-  | t :: ts => normTest t :: normTests ts
-
-def normHead (h : ClsHead) : ClsHead := { h with vis := normVis h.vis }
-
-mutual
-def normCls : Cls → Cls
-  | .mk h tests subs => .mk (normHead h) (normTests tests) (normClsList subs)
-def normClsList : List Cls → List Cls
-  | [] => []
-  | c :: cs => normCls c :: normClsList cs
-end
-
-def normInfo : Option SuiteInfo → Option SuiteInfo
-  | none => none
-  | some i => some { i with vis := normVis i.vis }
-
-def normModule (m : Module) : Module :=
-  { m with info := normInfo m.info, tests := normTests m.tests, classes := normClsList m.classes }
-
-def normModules : List Module → List Module
-  | [] => []
-  | m :: ms => normModule m :: normModules ms
-
-mutual
-def normDir : Dir → Dir
-  | .mk n mods dirs => .mk n (normModules mods) (normDirs dirs)
-def normDirs : List Dir → List Dir
-  | [] => []
-  | d :: ds => normDir d :: normDirs ds
-end
-
 /-- `load_suite_from_class(cls)` -/
-def loadClassReal (c : Cls) : Except LoadErr Suite := loadClass (stripCls (normCls c))
+def loadClassReal (c : Cls) : Except LoadErr Suite := loadClass (stripCls c)
 /-- `load_suite_from_file(path)` -/
-def loadFileReal (m : Module) : Except LoadErr Suite := loadFile (stripModule (normModule m))
+def loadFileReal (m : Module) : Except LoadErr Suite := loadFile (stripModule m)
 /-- `load_suites_from_files(patterns)` -/
-def loadFilesReal (mods : List Module) : Except LoadErr (List Suite) := loadFiles (stripModules (normModules mods))
+def loadFilesReal (mods : List Module) : Except LoadErr (List Suite) := loadFiles (stripModules mods)
 /-- `load_suites_from_directory(dir)` -/
-def loadDirReal (d : Dir) : Except LoadErr (List Suite) := loadDir (stripDir (normDir d))
-
-def Vis.falsyCallable : Vis → Bool
-  | .cond false _ => true
-  | _ => false
-
-def noFalsyTests (ts : List TestDecl) : Bool := ts.all (fun t => !t.vis.falsyCallable)
-
-mutual
-def noFalsyCls : Cls → Bool
-  | .mk h tests subs => !h.vis.falsyCallable && noFalsyTests tests && noFalsyClsList subs
-def noFalsyClsList : List Cls → Bool
-  | [] => true
-  | c :: cs => noFalsyCls c && noFalsyClsList cs
-end
-
-def noFalsyInfo : Option SuiteInfo → Bool
-  | none => true
-  | some i => !i.vis.falsyCallable
-
-def noFalsyModule (m : Module) : Bool := noFalsyInfo m.info && noFalsyTests m.tests && noFalsyClsList m.classes
-
-def noFalsyModules : List Module → Bool
-  | [] => true
-  | m :: ms => noFalsyModule m && noFalsyModules ms
-
-mutual
-/-- No `visible_if` condition anywhere in the tree is a falsy callable. -/
-def noFalsyDir : Dir → Bool
-  | .mk _ mods dirs => noFalsyModules mods && noFalsyDirs dirs
-def noFalsyDirs : List Dir → Bool
-  | [] => true
-  | d :: ds => noFalsyDir d && noFalsyDirs ds
-end
+def loadDirReal (d : Dir) : Except LoadErr (List Suite) := loadDir (stripDir d)
 
 mutual
 def noDunderCls : Cls → Bool
